@@ -490,6 +490,8 @@ TRANSPARENT = (
     "core::option::Option::ok_or", "core::option::Option::ok_or_else",
     "core::option::Option::as_mut", "core::option::Option::take",
     "core::option::Option::map", "core::result::Result::map", "core::result::Result::ok",
+    "tracing::instrument::Instrument::instrument", "tracing::instrument::Instrument::in_current_span",
+    "core::result::Result::inspect_err", "core::result::Result::inspect", "core::option::Option::inspect",
 )
 
 
@@ -547,9 +549,8 @@ def origins(body, operand_or_place, transparent=TRANSPARENT, stop_calls=(), awai
             o.params.add((l, fields))
         defs = body.defs_of(l)
         # partial writes `_l.f = x`
-        for bb, k, pl, rv, st in body.assigns():
-            if pl.local == l and pl.proj:
-                defs.append(("assign", bb, k, rv))
+        for bb, k, pl, rv, st in body.partial_writes(l):
+            defs.append(("assign", bb, k, rv))
         for d in defs:
             if d[0] == "assign":
                 rv = d[3]
@@ -560,7 +561,13 @@ def origins(body, operand_or_place, transparent=TRANSPARENT, stop_calls=(), awai
                         o.consts.append(c)
                     p = op_place(rv["op"])
                     if p is not None:
-                        work.append((p.local, tuple(p.fields()) + fields))
+                        srcs = variant_payload_sources(body, p)
+                        if srcs is not None:
+                            # `(x.f as V).g`: only values stored as variant V into x.f can be read here
+                            for sp in srcs:
+                                work.append((sp.local, tuple(sp.fields()) + fields))
+                        else:
+                            work.append((p.local, tuple(p.fields()) + fields))
                 elif k == "ref" or k == "rawptr" or k == "discr":
                     p = Place(rv["place"])
                     work.append((p.local, tuple(p.fields()) + fields))
@@ -615,6 +622,43 @@ def origins(body, operand_or_place, transparent=TRANSPARENT, stop_calls=(), awai
             elif getattr(aw, "src_local", None) is not None:
                 work.append((aw.src_local, fields))
     return o
+
+
+def variant_payload_sources(body, place):
+    """For a read `(L.f as V).g` return the places stored into field g of variant V by every write
+    `L.f = V { .. }` (directly or through a temp holding that aggregate); None if the place has no
+    downcast or no such write is found."""
+    di = None
+    for i, e in enumerate(place.proj):
+        if isinstance(e, list) and e[0] == "d":
+            di = i
+    if di is None or di + 1 >= len(place.proj):
+        return None
+    prefix = place.proj[:di]
+    variant = place.proj[di][2]
+    fe = place.proj[di + 1]
+    if not (isinstance(fe, list) and fe[0] == "f"):
+        return None
+    pk = Place([place.local, prefix]).key()
+    out = []
+    for bb, k, pl, rv, st in body.assigns():
+        if pl.key() != pk:
+            continue
+        agg = None
+        if rv["k"] == "agg" and rv["agg"] == "adt":
+            agg = rv
+        elif rv["k"] == "use":
+            q = op_place(rv["op"])
+            if q is not None and not q.proj:
+                d = single_def(body, q.local)
+                if d is not None and d[0] == "assign" and d[3]["k"] == "agg" and d[3]["agg"] == "adt":
+                    agg = d[3]
+        if agg is None or agg["variant"] != variant or fe[1] >= len(agg["ops"]):
+            continue
+        sp = op_place(agg["ops"][fe[1]])
+        if sp is not None:
+            out.append(sp)
+    return out or None
 
 
 def arg_origins(body, call, idx, **kw):
@@ -866,6 +910,19 @@ def deep_locals(body, operand):
         work.append(start.local)
     aw = {a.result: a for a in awaits(body) if a.result is not None} if body.kind == "coroutine" else {}
     push_like = ("push", "push_back", "push_front", "insert", "extend", "append")
+    pushes = getattr(body, "_pushes", None)
+    if pushes is None:
+        pushes = {}
+        for bb, t in body.calls():
+            if len(t["args"]) > 1 and "fn" in t["func"] and t["func"].get("name") in push_like:
+                p0 = op_place(t["args"][0])
+                if p0 is None:
+                    continue
+                base = trace_back(body, p0.local)[-1][0]
+                pushes.setdefault(base, []).append(t)
+                if p0.local != base:
+                    pushes.setdefault(p0.local, []).append(t)
+        body._pushes = pushes
     while work:
         l = work.pop()
         if l in seen:
@@ -884,19 +941,13 @@ def deep_locals(body, operand):
             elif d[0] == "call":
                 for a in d[3]["args"]:
                     visit(op_place(a))
-        for bb, k, pl, rv, st in body.assigns():
-            if pl.local == l and pl.proj and isinstance(rv.get("op"), dict):
+        for bb, k, pl, rv, st in body.partial_writes(l):
+            if isinstance(rv.get("op"), dict):
                 visit(op_place(rv.get("op")))
         # values pushed into a collection held in l: `Vec::push(&mut l, x)` etc.
-        for bb, t in body.calls():
-            if len(t["args"]) > 1 and fname(t["func"]).rsplit("::", 1)[-1] in push_like:
-                p0 = op_place(t["args"][0])
-                if p0 is None:
-                    continue
-                base = trace_back(body, p0.local)[-1][0]
-                if base == l or p0.local == l:
-                    for a in t["args"][1:]:
-                        visit(op_place(a))
+        for t in pushes.get(l, ()):
+            for a in t["args"][1:]:
+                visit(op_place(a))
         if l in aw and aw[l].create is not None:
             for a in aw[l].create["args"]:
                 visit(op_place(a))
